@@ -1,7 +1,110 @@
-(* C38 — placeholder while the proofs are being written *)
-From Coq Require Import List NArith Bool.
-From HV Require Import Model.Bond.
-Theorem C38_failed_bond_changes_nothing_tmp : forall info s t rate ge, snd (bond info s t rate ge) <> BOk -> fst (bond info s t rate ge) = s.
-Proof. intros info s t rate ge. unfold bond. destruct (lookup t (b_recs s)); cbn; [congruence|].
- destruct ge; cbn; [reflexivity|]. repeat (match goal with |- context [if ?c then _ else _] => destruct c end; cbn; try reflexivity). congruence. Qed.
-Print Assumptions C38_failed_bond_changes_nothing_tmp.
+(* C38 — Fee bonds are released exactly once per bonded transaction.  Property theorems only.
+   Model: Model/Bond.v (Bonder.SetMaxBalance/Bond/Unbond of internal/chain/bond.go, fdsmr.Node.BuildChunk/
+   Accept of x/fdsmr/node.go).  [info] maps a tx id to its sponsor, size and expiry; [run info n_init ops]
+   is the state after the history [ops]; all statements hold for every [info] and every history. *)
+From Coq Require Import List NArith ZArith Bool.
+Import ListNotations.
+From HV Require Import Model.Bond Proofs.Bond_proofs.
+Local Open Scope N_scope.
+
+(* After ANY history (SetMaxBalance, direct Bond/Unbond, node BuildChunk/Accept with duplicates, failing
+   Mutable / inner DSMR, any fee rates and maxima, in any order) the pending balance of every sponsor is
+   the sum of the recorded fees of its bonded transactions; every tx is recorded at most once; the
+   uint64 arithmetic never wrapped. *)
+Theorem C38_pending_is_sum_of_recorded_fees : forall (info : table) (ops : list op) (a : N),
+  let b := n_b (run info n_init ops) in
+  b_pend b a = sum_for info a (b_recs b) /\ NoDup (keys (b_recs b)) /\ b_pend b a < U64.
+Proof. exact pending_is_sum. Qed.
+Print Assumptions C38_pending_is_sum_of_recorded_fees.
+
+(* Admitting a not yet bonded tx records fee = size * rate, adds exactly that fee and leaves the
+   sponsor's pending balance at or below its maximum (any state, any history before it). *)
+Theorem C38_bond_admits_within_max : forall (info : table) (s : bst) (t rate : N) (ge : bool),
+  lookup t (b_recs s) = None -> snd (bond info s t rate ge) = BOk ->
+  let s' := fst (bond info s t rate ge) in
+  let a := tx_sponsor (info t) in
+  lookup t (b_recs s') = Some (tx_size (info t) * rate) /\
+  b_pend s' a = b_pend s a + tx_size (info t) * rate /\
+  b_pend s' a <= b_max s' a.
+Proof. exact bond_admits_within_max. Qed.
+Print Assumptions C38_bond_admits_within_max.
+
+(* pending(a) <= max(a) after every history in which SetMaxBalance never lowers a maximum below the
+   sponsor's current pending balance ([hist_ok]; lowering it below is allowed by the code and then the
+   balance legitimately exceeds the new maximum until txs settle, cf. TestSetMaxBalanceDuringBond). *)
+Theorem C38_pending_le_max : forall (info : table) (ops : list op) (a : N),
+  hist_ok info n_init ops ->
+  let b := n_b (run info n_init ops) in b_pend b a <= b_max b a.
+Proof. exact pending_le_max. Qed.
+Print Assumptions C38_pending_le_max.
+
+(* Duplicate Bond is idempotent: bonding a recorded tx returns true and changes nothing, whatever the
+   rate or the state of the Mutable; in particular bonding twice equals bonding once. *)
+Theorem C38_duplicate_bond_idempotent : forall (info : table) (s : bst) (t rate rate' : N) (ge ge' : bool),
+  snd (bond info s t rate ge) = BOk ->
+  bond info (fst (bond info s t rate ge)) t rate' ge' = (fst (bond info s t rate ge), BOk).
+Proof. intros info s t rate rate' ge ge'. apply bond_twice. Qed.
+Print Assumptions C38_duplicate_bond_idempotent.
+
+(* A Bond that returns false or an error changes nothing. *)
+Theorem C38_failed_bond_changes_nothing : forall (info : table) (s : bst) (t rate : N) (ge : bool),
+  snd (bond info s t rate ge) <> BOk -> fst (bond info s t rate ge) = s.
+Proof. exact bond_failed_same. Qed.
+Print Assumptions C38_failed_bond_changes_nothing.
+
+(* Unbond releases exactly the recorded fee, once: in any reachable state, unbonding a recorded tx
+   lowers its sponsor's pending balance by exactly the recorded fee (no wrap), touches nothing else,
+   deletes the record, and a second Unbond is a no-op. *)
+Theorem C38_unbond_releases_exactly_once : forall (info : table) (ops : list op) (t fee : N),
+  let b := n_b (run info n_init ops) in
+  lookup t (b_recs b) = Some fee ->
+  let a := tx_sponsor (info t) in
+  let b' := unbond info b t in
+  fee <= b_pend b a /\
+  b_pend b' a = b_pend b a - fee /\
+  (forall a', a' <> a -> b_pend b' a' = b_pend b a') /\
+  lookup t (b_recs b') = None /\
+  (forall k, k <> t -> lookup k (b_recs b') = lookup k (b_recs b)) /\
+  unbond info b' t = b'.
+Proof. exact unbond_exactly_once. Qed.
+Print Assumptions C38_unbond_releases_exactly_once.
+
+(* Node level (histories of SetMaxBalance / direct Unbond / BuildChunk / Accept): after a successful
+   Accept at timestamp ts every still recorded tx is in the expiry heap, is not expired (expiry >= ts)
+   and was not in the accepted chunks; hence if every bonded tx is expired or accepted, nothing is
+   recorded and every pending balance is zero. *)
+Theorem C38_settled_returns_to_zero : forall (info : table) (ops : list op) (ts : Z) (chunks : list (list N)),
+  Forall no_direct_bond ops ->
+  let s := run info n_init ops in
+  let s' := fst (accept info s ts chunks false) in
+  (forall t, In t (keys (b_recs (n_b s'))) ->
+     In t (n_heap s) /\ (tx_expiry (info t) >= ts)%Z /\ ~ In t (concat chunks)) /\
+  ((forall t, In t (n_heap s) -> (tx_expiry (info t) < ts)%Z \/ In t (concat chunks)) ->
+   b_recs (n_b s') = [] /\ forall a, b_pend (n_b s') a = 0).
+Proof. exact accept_settles. Qed.
+Print Assumptions C38_settled_returns_to_zero.
+
+(* ---- non-vacuity ------------------------------------------------------------------------- *)
+Definition ex_info : table := fun t => mkTx 0 10 (if t =? 0 then 5%Z else 9%Z).
+Definition ex_ops := [OSetMax 0 100; OBuild [0; 0; 1] 2 false false; OBuild [0] 3 false false].
+
+(* the same tx bonded three times within and across chunks is charged once *)
+Example C38_ex_duplicate_charged_once :
+  b_pend (n_b (run ex_info n_init ex_ops)) 0 = 40 /\ b_recs (n_b (run ex_info n_init ex_ops)) = [(1, 20); (0, 20)].
+Proof. vm_compute. split; reflexivity. Qed.
+Example C38_ex_hist_ok : hist_ok ex_info n_init ex_ops.
+Proof. vm_compute. intuition discriminate. Qed.
+Example C38_ex_no_direct_bond : Forall no_direct_bond ex_ops.
+Proof. repeat constructor. Qed.
+(* accepting tx 1 at a timestamp after tx 0's expiry settles everything *)
+Example C38_ex_settled :
+  b_pend (n_b (fst (accept ex_info (run ex_info n_init ex_ops) 6%Z [[1]] false))) 0 = 0.
+Proof. vm_compute. reflexivity. Qed.
+Example C38_ex_settle_hyp : forall t, In t (n_heap (run ex_info n_init ex_ops)) ->
+  (tx_expiry (ex_info t) < 6)%Z \/ In t (concat [[1]]).
+Proof. vm_compute. intros t [<-|[<-|[]]]; [right; left; reflexivity | left; reflexivity]. Qed.
+Example C38_ex_bond_ok : snd (bond ex_info b_init 0 0 false) = BOk /\ snd (bond ex_info b_init 0 1 false) = BNo
+  /\ snd (bond ex_info b_init 0 1 true) = BErr.
+Proof. vm_compute. repeat split. Qed.
+Example C38_ex_recorded : lookup 0 (b_recs (n_b (run ex_info n_init ex_ops))) = Some 20.
+Proof. vm_compute. reflexivity. Qed.
